@@ -81,9 +81,10 @@ def tensor_sha(t) -> str:
     tt = t.detach()
     if tt.is_sparse:
         tt = tt.to_dense()
-    tt = tt.contiguous().cpu()
+    tt = tt.cpu().clone(memory_format=torch.contiguous_format).reshape(-1).clone()
+    shape0 = tuple(t.shape)
     h = hashlib.sha1()
-    h.update(str(tuple(tt.shape)).encode())
+    h.update(str(shape0).encode())
     h.update(str(tt.dtype).encode())
     if tt.numel():
         h.update(tt.view(torch.uint8).numpy().tobytes() if tt.dtype != torch.bool else tt.to(torch.uint8).numpy().tobytes())
@@ -179,7 +180,13 @@ def worker_main(argv):
             if time.time() > soft_deadline:
                 break
             rs = run_seed(base, prop, i)
-            scen, res = mod.generate_run(rs, tier)
+            try:
+                scen, res = mod.generate_run(rs, tier)
+            except Exception:
+                out.write(json.dumps({"type": "harness_error", "index": i, "run_seed": rs, "what": "exception in generate_run",
+                                      "tb": traceback.format_exc()}) + "\n")
+                out.flush()
+                continue
             if res.get("violations") or (k % selfcheck_every == 0):
                 res2 = mod.replay(scen)
                 if res2["digest"] != res["digest"]:
@@ -294,34 +301,20 @@ def check_main(prop: str, tier: str, runs_override=None) -> int:
     known = load_known()
     known_lines = []
     harness_errors = []
-    # 1. pinned replays of listed findings
-    for kf in known.get("findings", []):
-        if kf["property"] != prop:
-            continue
-        pinned = os.path.join(VERIF_DIR, kf["pinned_replay"])
-        try:
-            r = fresh_replay(pinned)
-        except HarnessError as e:
-            harness_errors.append(str(e))
-            continue
-        if r["violations"]:
-            known_lines.append(f"KNOWN-FINDING: property={prop} {kf['id']}: {kf['description']}")
-    for ln in known_lines:
-        print(ln, flush=True)
-    # fixed entries suppress nothing: their pinned replays are regression scenarios and must stay silent
     regressions = []
+    # 1. pinned replays (fresh interpreters, run concurrently with the search): listed findings must still be reported as
+    #    KNOWN-FINDING; fixed entries suppress nothing - their replays are regression scenarios and must stay silent
+    from concurrent.futures import ThreadPoolExecutor
+
+    pin_pool = ThreadPoolExecutor(max_workers=4)
+    pin_jobs = []
+    for kf in known.get("findings", []):
+        if kf["property"] == prop:
+            pin_jobs.append(("finding", kf, pin_pool.submit(fresh_replay, os.path.join(VERIF_DIR, kf["pinned_replay"]))))
     for fx in known.get("fixed", []):
-        if fx["property"] != prop:
-            continue
-        for rel in fx.get("pinned_replays", []):
-            pinned = os.path.join(VERIF_DIR, rel)
-            try:
-                r = fresh_replay(pinned)
-            except HarnessError as e:
-                harness_errors.append(str(e))
-                continue
-            if r["violations"]:
-                regressions.append((r["violations"][0], pinned))
+        if fx["property"] == prop:
+            for rel in fx.get("pinned_replays", []):
+                pin_jobs.append(("fixed", rel, pin_pool.submit(fresh_replay, os.path.join(VERIF_DIR, rel))))
 
     # 2. seeded search
     nw = max(1, min(N_WORKERS, n_runs))
@@ -344,6 +337,21 @@ def check_main(prop: str, tier: str, runs_override=None) -> int:
             p.kill()
             p.wait()
         errf.close()
+
+    for kind, item, fut in pin_jobs:
+        try:
+            r = fut.result()
+        except HarnessError as e:
+            harness_errors.append(str(e))
+            continue
+        if kind == "finding":
+            if r["violations"]:
+                known_lines.append(f"KNOWN-FINDING: property={prop} {item['id']}: {item['description']}")
+        elif r["violations"]:
+            regressions.append((r["violations"][0], os.path.join(VERIF_DIR, item)))
+    pin_pool.shutdown()
+    for ln in known_lines:
+        print(ln, flush=True)
 
     mod = get_property_module_parent(prop)
     total = mod.new_aggregate()
